@@ -33,7 +33,7 @@ func vAttempt(name string, hi int) int {
 func vLinearAttempt() int {
 	set := []int{0, 1, 3}
 	if verif.Tier() > 0 {
-		set = []int{0, 1, 2, 3, 7, 16, 100, 1000}
+		set = []int{0, 1, 3, 7, 15, 1023}
 	}
 	return set[verif.Choice("nlinear", len(set))]
 }
